@@ -14,6 +14,17 @@ TINY_MOLS = ["He", "H2", "HeH+", "LiH", "H2O"]
 MANY_ATOM_MOLS = ["CH4", "H6", "H9"]  # > 4 atoms: dynamic,4 loops over atoms hand out several chunks
 
 
+PHASE_HOOK = None
+
+
+def phase():
+    """a point between two library calls of a workload (construction | use, feature pass |
+    potential pass): the engine may change the OpenMP thread-count setting here, as a user
+    does with omp_set_num_threads / threadpoolctl between calls on long-lived objects"""
+    if PHASE_HOOK is not None:
+        PHASE_HOOK()
+
+
 def _rho_data(nprng, nrho, n, scale=1.0):
     rho = np.zeros((nrho, n))
     rho[0] = np.exp(nprng.uniform(-7, 1, n)) * scale
@@ -88,6 +99,7 @@ def wl_nldf_gen(p):
     """generator construction (ATC integrals, projection coefficients, spline maps) +
     get_features + get_potential for each spin"""
     st, mol, grids, gen = _make_nldfgen(p)
+    phase()
     out = {}
     nprng = np.random.default_rng(p["dseed"])
     nrho = 5 if st.sl_settings.level == "MGGA" else 4
@@ -99,6 +111,7 @@ def wl_nldf_gen(p):
         feat = gen.get_features(rho, spin=s)
         out["feat%d" % s] = feat
         vfeat = nprng.normal(size=feat.shape)
+        phase()
         out["vrho%d" % s] = gen.get_potential(vfeat, spin=s)
     out["w_iap"] = np.asarray(gen.ccl._integrals) if hasattr(gen.ccl, "_integrals") and isinstance(gen.ccl._integrals, np.ndarray) else np.zeros(1)
     return out
@@ -108,6 +121,7 @@ def wl_nldf_grad(p):
     """grad_mode path: project_orb2grid_grad, contract_grad_terms, l+1 gradient terms"""
     p = dict(p, interp=p["interp"] if p["interp"] != "train_gen" else "onsite_direct", nspin=1)
     st, mol, grids, gen = _make_nldfgen(p)
+    phase()
     out = {}
     nprng = np.random.default_rng(p["dseed"])
     nrho = 5 if st.sl_settings.level == "MGGA" else 4
@@ -116,6 +130,7 @@ def wl_nldf_grad(p):
     feat = gen.get_features(rho, spin=0, map_grids=False, grad_mode=True)
     out["feat"] = feat
     vfeat = nprng.normal(size=feat.shape)
+    phase()
     vrho, gg, exc = gen.get_potential(vfeat, spin=0, map_grids=False, grad_mode=True)
     out["vrho"] = vrho
     out["gg"] = gg
@@ -191,6 +206,7 @@ def wl_sdmx(p):
     st = zoo.make_settings(p["kind"], rng, normalizer=False)
     mol = zoo.make_mol(p["mol"], p["basis"])
     gen = EXXSphGenerator.from_settings_and_mol(st.sdmx_settings, p["nspin"], mol)
+    phase()
     nprng = np.random.default_rng(p["dseed"])
     coords = nprng.normal(size=(p["ngrids"], 3)) * 1.5
     nao = mol.nao_nr()
@@ -207,6 +223,7 @@ def wl_sdmx(p):
     out["feat"] = feat
     vgrid = nprng.normal(size=feat.shape)
     vmat = np.zeros(dms.shape)
+    phase()
     gen.get_vxc_(vmat, vgrid)
     out["vmat"] = vmat
     return out
@@ -321,6 +338,7 @@ def draw_e2e_params(rng):
         "plan_type": rng.choice(["gaussian", "spline"]),
         "interp": rng.choice(["onsite_direct", "onsite_spline"]),
         "dseed": rng.below(10**6),
+        "twice": bool(rng.chance(0.3)),
     }
 
 
@@ -355,7 +373,15 @@ def wl_e2e(p):
         dm = np.stack(dms) if not uks else np.stack(dms, axis=1)
     fn = ks._numint.nr_uks if uks else ks._numint.nr_rks
     n, e, v = fn(mol, ks.grids, ks.xc, dm)
-    return {"nelec": np.asarray(n), "excsum": np.asarray(e), "vmat": np.asarray(v)}
+    out = {"nelec": np.asarray(n), "excsum": np.asarray(e), "vmat": np.asarray(v)}
+    if p.get("twice"):
+        # the calculator (and the generators it built in the first call) is used again after
+        # the thread-count setting may have changed
+        phase()
+        dm2 = dm * 0.9
+        n2, e2, v2 = fn(mol, ks.grids, ks.xc, dm2)
+        out.update({"nelec2": np.asarray(n2), "excsum2": np.asarray(e2), "vmat2": np.asarray(v2)})
+    return out
 
 
 WORKLOADS = {
@@ -547,6 +573,7 @@ def wl_atc_misc(p):
     basis = aug_etb_for_cider(mol, lmax=p["lmax"], beta=p["beta"])
     mol2 = gto.M(atom=mol.atom, basis=basis, spin=mol.spin, charge=mol.charge, unit=mol.unit, verbose=0)
     atco = ATCBasis(*get_gamma_lists_from_mol(mol2))
+    phase()
     out = {}
     nq = p["nq"]
     arr = np.ascontiguousarray(r.normal(size=(atco.nao, nq)))
